@@ -153,7 +153,7 @@ theorem addrOffset_good {l r : Value} {op : Char} {m : Mode} (hv : (Value.expr l
       cases h
       exact (numericOfInt_good 0 hn hz).int_le (by omega)
   generalize hzo : (if (op == '+') = true then some ((a : Int) + add)
-        else if (op == '-') = true then some ((a : Int) - add)
+        else if (op == '-') = true then some (((a : Int) - add) % 65536)
         else if (op == '*') = true then some ((a : Int) * add)
         else if add = 0 then none else some ((a / add : Nat) : Int)) = zo
   cases zo with
